@@ -4,6 +4,8 @@ package main
 
 import (
 	"strings"
+
+	"golang.org/x/mod/modfile"
 )
 
 func init() {
@@ -68,36 +70,78 @@ func edPlaceholders(run *edRun) string {
 	return ""
 }
 
-// edRetractDetail refines a retract mismatch: same intervals but different rationales?
-func edRetractDetail(typed, re *edDirs) string {
-	strip := func(d *edDirs) *edDirs {
-		c := &edDirs{}
-		for _, e := range d.L[edRetract] {
-			c.L[edRetract] = append(c.L[edRetract], edEnt{K: []string{e.K[0], e.K[1], ""}})
-		}
-		return c
+const edSigInherited = "retract-rationale:block-comment-inherited"
+const edSigCollapsed = "retract-rationale:collapse-merged-block-comment"
+
+func edKnownCause(sig string) bool {
+	return strings.HasSuffix(sig, ":"+edSigInherited) || strings.HasSuffix(sig, ":"+edSigCollapsed) || strings.HasSuffix(sig, ":go-prerelease")
+}
+
+// edRetractDetail pairs every typed retraction with the re-parsed one on the same output line and names
+// the mismatch: "" (none), "retract" (interval or pairing), "retract-rationale" (unexplained), or one
+// of the two structural causes recorded as findings (computed from the session itself):
+//   inherited: typed rationale "" for a line created by AddRetract that has no comment of its own and sits
+//              in a retract block whose comments the strict parser therefore attributes to it;
+//   collapsed: a Cleanup of this session collapsed the one-line commented block around the line and merged
+//              the block's comments into it (re-parsed = block text [+ "\n" + typed]).
+func edRetractDetail(run *edRun) string {
+	if run.Mod == nil {
+		return "" // go.work has no retractions
 	}
-	a := strings.Fields(strip(typed).render(true))[3+edRetract]
-	b := strings.Fields(strip(re).render(true))[3+edRetract]
-	if a != b {
+	if run.ReMod == nil {
 		return "retract"
 	}
-	// classify: is some typed rationale empty where the re-parse has one (inherited from the block),
-	// or non-empty but different (stale after comments were merged)?
-	for _, e := range typed.L[edRetract] {
-		if e.K[2] == "" {
-			found := false
-			for _, r := range re.L[edRetract] {
-				if r.K[0] == e.K[0] && r.K[1] == e.K[1] && r.K[2] == "" {
-					found = true
-				}
-			}
-			if !found {
-				return "retract-rationale:typed-empty"
+	fin, re := edTreeLines(run.Mod.Syntax), edTreeLines(run.ReMod.Syntax)
+	if len(fin) != len(re) || len(run.Mod.Retract) != len(run.ReMod.Retract) {
+		return "retract"
+	}
+	pos := map[*modfile.Line]int{}
+	for i, l := range fin {
+		pos[l.Ptr] = i
+	}
+	reBy := map[*modfile.Line]*modfile.Retract{}
+	for _, r := range run.ReMod.Retract {
+		reBy[r.Syntax] = r
+	}
+	blockOf := map[*modfile.Line]*modfile.LineBlock{}
+	for _, st := range run.Mod.Syntax.Stmt {
+		if b, ok := st.(*modfile.LineBlock); ok {
+			for _, l := range b.Line {
+				blockOf[l] = b
 			}
 		}
 	}
-	return "retract-rationale:typed-stale"
+	known := ""
+	for _, r := range run.Mod.Retract {
+		k, ok := pos[r.Syntax]
+		if !ok {
+			return "retract"
+		}
+		q := reBy[re[k].Ptr]
+		if q == nil || q.VersionInterval != r.VersionInterval {
+			return "retract"
+		}
+		if q.Rationale == r.Rationale {
+			continue
+		}
+		created := !run.StartPtr[r.Syntax]
+		b := blockOf[r.Syntax]
+		merged, wasCollapsed := run.Collapsed[r.Syntax]
+		switch {
+		case r.Rationale == "" && created && b != nil && !edHasText(&r.Syntax.Comments) && edHasText(&b.Comments) &&
+			q.Rationale == edDirectiveText(&b.Comments):
+			if known == "" {
+				known = edSigInherited
+			}
+		case wasCollapsed && (q.Rationale == merged+"\n"+r.Rationale || (r.Rationale == "" && created && q.Rationale == merged)):
+			if known == "" {
+				known = edSigCollapsed
+			}
+		default:
+			return "retract-rationale"
+		}
+	}
+	return known
 }
 
 func edCheckC15(work bool, file string, ops []edOp) (sig, info string) {
@@ -118,20 +162,28 @@ func edCheckC15(work bool, file string, ops []edOp) (sig, info string) {
 	got := strings.Fields(run.Reparsed.render(true))
 	names := []string{"module", "go", "toolchain"}
 	names = append(names, edKindName[:]...)
+	knownSig, knownInfo := "", ""
 	for i := range want {
-		if want[i] != got[i] {
-			name := names[i]
-			if name == "retract" {
-				name = edRetractDetail(run.Typed, run.Reparsed)
+		name := names[i]
+		if name == "retract" {
+			// always paired line by line (a multiset comparison could pair wrongly)
+			if name = edRetractDetail(run); name == "" {
+				continue
 			}
-			if name == "require" {
-				// same (path, version) multiset but different indirect flags?
-				name = edRequireDetail(run.Typed, run.Reparsed)
-			}
-			return "c15-typed-vs-reparse:" + name, "typed " + want[i] + " reparsed " + got[i]
+		} else if want[i] == got[i] {
+			continue
 		}
+		if name == "require" {
+			// same (path, version) multiset but different indirect flags?
+			name = edRequireDetail(run.Typed, run.Reparsed)
+		}
+		sig, info = "c15-typed-vs-reparse:"+name, "typed "+want[i]+" reparsed "+got[i]
+		if !edKnownCause(sig) {
+			return sig, info
+		}
+		knownSig, knownInfo = sig, info
 	}
-	return "", ""
+	return knownSig, knownInfo
 }
 
 func edRequireDetail(typed, re *edDirs) string {
